@@ -1,4 +1,7 @@
-"""Prototype fake network: replaces ScalesSocket. Virtual-time gevent loop required."""
+"""Fake network.  `install()` leaves the REAL scales.scales_socket.ScalesSocket in place and replaces only the OS socket
+class it instantiates (`gsocket`) and name resolution, so open()/close()/isOpen() are the code under test.
+`FakeScalesSocket` is kept for harnesses that hand a socket object to a transport directly.  Virtual-time gevent loop
+required."""
 import gevent
 from gevent.event import Event
 from gevent.queue import Queue
@@ -9,6 +12,7 @@ class Net(object):
         self.servers = {}    # (host,port) -> Server
         self.conns = []
         self.log = []
+        self.connect_delay = 0   # seconds every connect takes (virtual time)
     def server(self, host, port):
         s = self.servers.get((host, port))
         if not s:
@@ -27,7 +31,7 @@ class Server(object):
 
 class Conn(object):
     """client side handle (like a gevent socket)"""
-    def __init__(self, server):
+    def __init__(self, server=None):
         self.server = server
         self.to_client = bytearray()
         self.client_evt = Event()
@@ -38,6 +42,20 @@ class Conn(object):
         self.write_error = None
         self.on_write = None
     # --- client API
+    def connect(self, addr):
+        """what the real ScalesSocket.open() calls on the OS socket it has just created"""
+        import time
+        srv = NET.server(addr[0], addr[1])
+        self.server = srv
+        if NET.connect_delay:
+            gevent.sleep(NET.connect_delay)
+        srv.connect_attempts.append(time.time())
+        if srv.hang_connect:
+            Event().wait()
+        if not srv.reachable:
+            raise _socket.error(111, 'Connection refused')
+        srv.conns.append(self)
+        if srv.on_connect: srv.on_connect(self)
     def recv_into(self, view, sz):
         while True:
             if self.closed_by_client: raise _socket.error('closed')
@@ -108,6 +126,7 @@ class FakeScalesSocket(object):
     def write(self, buff): self.handle.sendall(buff)
 
 def install():
-    import scales.sink, scales.scales_socket
-    scales.sink.ScalesSocket = FakeScalesSocket
-    scales.scales_socket.ScalesSocket = FakeScalesSocket
+    import scales.scales_socket as ss
+    ss.gsocket = lambda family, type_: Conn()
+    ss.ScalesSocket._resolveAddr = lambda self: [(2, 1, 6, '', (self.host, self.port))]
+    NET.connect_delay = 0
